@@ -42,7 +42,7 @@ pub static DEF: PropDef = PropDef {
 fn runs(t: Tier) -> u64 {
 	match t {
 		Tier::Quick => 60_000,
-		Tier::Thorough => 3_000_000,
+		Tier::Thorough => 2_000_000,
 	}
 }
 
